@@ -293,7 +293,7 @@ theorem functionPredictor_ne_internal (gp : GPType) (n : Nat) (lm : Option Nat) 
   unfold functionPredictor
   split_ifs
   · simp
-  · cases lm <;> cases s <;> simp <;> split_ifs <;> simp
+  · cases lm <;> simp
 
 theorem functionPredictor_ok {gp gp' : GPType} {n rows cols : Nat} {lm : Option Nat} {s : SigmaForm}
     {cls : PredFamily} (h : functionPredictor gp n lm s = .ok gp' rows cols cls) :
@@ -313,15 +313,9 @@ theorem functionPredictor_ok {gp gp' : GPType} {n rows cols : Nat} {lm : Option 
       obtain ⟨h1, h2, h3, h4⟩ := h
       simp [hg, h1.symm, h2.symm, h3.symm, h4.symm]
     | some m =>
-      cases s <;> simp only [] at h
-      all_goals (first
-        | (simp only [Outcome.ok.injEq] at h
-           obtain ⟨h1, h2, h3, h4⟩ := h
-           simp [hg, h1.symm, h2.symm, h3.symm, h4.symm])
-        | (split_ifs at h
-           simp only [Outcome.ok.injEq] at h
-           obtain ⟨h1, h2, h3, h4⟩ := h
-           simp [hg, h1.symm, h2.symm, h3.symm, h4.symm]))
+      simp only [Outcome.ok.injEq] at h
+      obtain ⟨h1, h2, h3, h4⟩ := h
+      simp [hg, h1.symm, h2.symm, h3.symm, h4.symm]
 
 theorem effConfig_function {c : Config} (h : c.est = .function) :
     effConfig c = { c with rank := .flt 1 } := by
